@@ -50,3 +50,23 @@ def apply(path, work):
     out = os.path.join(d, hashlib.md5(path.encode()).hexdigest()[:8] + '_' + os.path.basename(path))
     open(out, 'w').write(s)
     return out
+
+
+def header_include_dirs(src_root, work):
+    """Rules whose key is a header: patched copies laid out under <work>/overlay_inc so that `-I <dir>` placed before the real
+    source tree shadows the original for `#include <util/...h>`. Regenerated from the tree under test on every build."""
+    d = os.path.join(work, 'overlay_inc'); used = False
+    for suffix, rs in RULES.items():
+        if not suffix.endswith('.h'):
+            continue
+        p = os.path.join(src_root, suffix)
+        if not os.path.exists(p):
+            continue
+        s = open(p).read(); n = 0
+        for pat, rep in rs:
+            s, k = re.subn(pat, rep, s); n += k
+        if n == 0:
+            continue
+        out = os.path.join(d, suffix); os.makedirs(os.path.dirname(out), exist_ok=True)
+        tmp = out + '.%d.tmp' % os.getpid(); open(tmp, 'w').write(s); os.replace(tmp, out); used = True
+    return [d] if used else []
